@@ -60,6 +60,7 @@ type thread struct {
 	exited  bool
 	blocked bool
 	spin    bool
+	yield   bool        // LetOthersRun: disabled until every other thread is blocked
 	on      interface{} // object blocked on
 	onLabel string
 	started bool
@@ -237,12 +238,12 @@ func (e *exec) allUserDone() bool {
 // first if it is enabled, then ascending ids.
 func (e *exec) enabled(t *thread) ([]*thread, bool) {
 	var out []*thread
-	runningEnabled := t != nil && !t.done && !t.blocked && !t.spin
+	runningEnabled := t != nil && !t.done && !t.blocked && !t.spin && !t.yield
 	if runningEnabled {
 		out = append(out, t)
 	}
 	for _, o := range e.threads {
-		if o == t || o.done || o.blocked || o.spin {
+		if o == t || o.done || o.blocked || o.spin || o.yield {
 			continue
 		}
 		out = append(out, o)
@@ -279,6 +280,16 @@ func (e *exec) next(t *thread) {
 		return
 	}
 	en, runningEnabled := e.enabled(t)
+	if len(en) == 0 {
+		// a thread that only let the others run continues now
+		for _, o := range e.threads {
+			if o.yield && !o.done {
+				o.yield = false
+				en = append(en, o)
+				break
+			}
+		}
+	}
 	if len(en) == 0 {
 		// spinners only? release them once: if a spinner is the only thing
 		// left, nothing can change any more.
@@ -526,6 +537,24 @@ func YieldSpin(label string) {
 	}
 	t.spin, t.onLabel = true, "spin:"+label
 	e.next(t)
+}
+
+// LetOthersRun disables the caller until every other thread is blocked or
+// finished (used to let the library's background writer drain its queue at a
+// chosen moment).
+func LetOthersRun() {
+	e := cur
+	if e == nil {
+		return
+	}
+	if e.aborting {
+		panic(abortSentinel{})
+	}
+	t := e.running
+	e.res.Steps++
+	t.yield = true
+	e.next(t)
+	t.yield = false
 }
 
 // ThreadCount returns the number of threads created so far.
